@@ -19,14 +19,20 @@ build() {
   go build -tags verif -o .build/bin/vcheck ./cmd/vcheck >&2
 }
 
+buildrace() {
+  go build -race -tags verif -o .build/bin/vcheck-race ./cmd/vcheck >&2
+}
+
 case "$1" in
   setup)
     build
+    buildrace
     .build/bin/vcheck selftest
     ;;
   check)
     build
     shift
+    if [ "$1" = "C33" ]; then buildrace; fi
     exec .build/bin/vcheck check "$@"
     ;;
   replay)
